@@ -300,15 +300,19 @@ def header_marker(spec, source_header=None):
 
 
 def region(rows):
-    def big(v):
+    """integer regions with their own signature: |v| >= 10^15-1 (float log10 digit count) and v == -2^63 (abs overflows)"""
+    def ints(v):
         if isinstance(v, bool):
-            return False
+            return []
         if isinstance(v, int):
-            return abs(v) >= BIG
+            return [v]
         if isinstance(v, list):
-            return any(big(x) for x in v)
-        return False
-    return ":bigint" if any(big(v) for r in rows for v in r) else ""
+            return [x for y in v for x in ints(y)]
+        return []
+    vals = [x for r in rows for v in r for x in ints(v)]
+    if any(x == -2 ** 63 for x in vals):
+        return ":int64-min"
+    return ":bigint" if any(abs(x) >= BIG for x in vals) else ""
 
 
 def check_content(spec, rows, data, expected_header=None, width=None):
@@ -679,7 +683,9 @@ def exec_rechunk(col, tmp, case):
         if kind.startswith("header"):
             sig = header_signature("stream", "", kind)
         else:
-            sig = _not_lazy_specific(tmp, dict(case, mode="stream", split=[len(rows)]), rows) or "rechunk-stream:%s" % case["type"]
+            sig = (_not_lazy_specific(tmp, dict(case, mode="stream", split=[len(rows)]), rows) or
+                   _not_lazy_specific(tmp, dict(case, mode="stream", split=[1] * len(rows)), rows) or
+                   "rechunk-stream:%s" % case["type"])
         col.fail(sig, case, msg)
 
 
